@@ -43,7 +43,8 @@ Proof. vm_compute. reflexivity. Qed.
 Lemma flags_used :
   flags_of "_select_sql" = (true, true) /\ flags_of "_from_sql" = (true, true) /\ flags_of "Join.get_sql" = (true, true)
   /\ flags_of "JoinOn.get_sql" = (false, true) /\ flags_of "_where_sql" = (false, true)
-  /\ flags_of "_group_sql" = (false, false) /\ flags_of "_having_sql" = (false, false) /\ flags_of "_orderby_sql" = (false, false)
+  /\ flags_of "_group_sql" = (false, clause_subq_groupby) /\ flags_of "_having_sql" = (false, clause_subq_having)
+  /\ flags_of "_orderby_sql" = (false, clause_subq_orderby)
   /\ sep_of "_select_sql" = "," /\ sep_of "_from_sql" = "," /\ sep_of "_group_sql" = "," /\ sep_of "_orderby_sql" = ",".
 Proof. vm_compute. repeat split. Qed.
 
@@ -179,7 +180,7 @@ Lemma seg_groups_spec k kk srcs ci aref l ss :
   seg_groups k kk srcs ci aref l = Ok ss <->
   Forall2 (fun y s => match (if k_gba k then aref y else None) with
                       | Some a => s = fq (or_ostr (aq (kc k)) (q (kc k))) a
-                      | None => ritem kk srcs (ci false false) y = Ok s end) l ss.
+                      | None => ritem (mk_k (kc kk) (k_abs kk) true) srcs (ci false clause_subq_groupby) y = Ok s end) l ss.
 Proof.
   revert ss. induction l as [|y r IH]; intros ss; cbn [seg_groups].
   - split; [intros H; inversion H; constructor | intros H; inversion H; reflexivity].
@@ -196,7 +197,7 @@ Lemma seg_orders_spec k kk srcs ci aref l ss :
   Forall2 (fun yd s => exists a,
              match aref (fst yd) with
              | Some al => a = fq (or_ostr (aq (kc k)) (q (kc k))) al
-             | None => ritem kk srcs (ci false false) (fst yd) = Ok a end
+             | None => ritem kk srcs (ci false clause_subq_orderby) (fst yd) = Ok a end
              /\ s = match snd yd with Some d' => a ++ " " ++ order_text d' | None => a end) l ss.
 Proof.
   revert ss. induction l as [|[y d] r IH]; intros ss; cbn [seg_orders].
